@@ -361,3 +361,13 @@ func VerifSetLastKey(rs *RelationService, k uint32) {
 		rs.fs.lastKey = k
 	}
 }
+
+// VerifSetNextFree moves the allocation frontier of the data file forward to
+// off (a multiple of the page size; never backwards): the state of a data file
+// that has grown that large. The pages in between are never referred to; the
+// file stays sparse.
+func VerifSetNextFree(rs *RelationService, off uint64) {
+	if off%pageSize == 0 && off > rs.fs.nextFreeOffset {
+		rs.fs.nextFreeOffset = off
+	}
+}
